@@ -139,7 +139,8 @@ class SchemaValidationContext:
                         f"{operation_type_str} root type must be Object type"
                         f"{if_provided_str}, it cannot be {root_type_str}.",
                         get_operation_type_node(schema, operation_type)
-                        or root_type.ast_node,
+                        # a wrapping type given as root type has no AST node
+                        or getattr(root_type, "ast_node", None),
                     )
         for root_type, operation_types in root_types_map.items():
             if len(operation_types) > 1:
@@ -508,6 +509,8 @@ class SchemaValidationContext:
     ) -> None:
         type_interfaces, iface_interfaces = type_.interfaces, iface.interfaces
         for transitive in iface_interfaces:
+            if not is_interface_type(transitive):
+                continue  # reported when validating the interfaces of iface itself
             if transitive not in type_interfaces:
                 self.report_error(
                     f"Type {type_} cannot implement {iface.name}"
